@@ -7,7 +7,9 @@ Correspondence (model = lean/TPV/Model/DeepONet.lean through lean/drivers/C09.le
   lin   : ONE TrunkLinear layer in exact rational arithmetic (small dyadic data: torch is exact too):
           output, grad_input, grad_weight, grad_bias
   mesh  : FunctionSet meshgrid / function batch / collections, exact
-  nondiv: output_neurons not divisible by the output dimension must be rejected
+  uniq  : plain trunk with one location set per function
+  nondiv: output_neurons not divisible by the output dimension must be rejected (or handled consistently)
+  malformed branch tensors (wrong number of points) are counted, never judged
 Property oracles (run on every case, independent of the Lean model):
   O1 out[i,j,c] == sum_k branchfeat[i, c*K+k] * trunkfeat[j, c*K+k]  (reference MLP in numpy from the parameters)
   O2 batch independence: function i alone / location j alone / permuted batches give the same numbers
@@ -142,6 +144,8 @@ def gen_net(ctx, idx):
                 pick=[rng.randrange(B), rng.randrange(N)], perm_seed=rng.randrange(10 ** 6),
                 A_seed=rng.randrange(10 ** 6))
     # malformed stream: a tensor with a wrong number of discretisation points (re-cut or rejected)
+    # Sequential(NormalizationLayer, trunk): the other finalize path of DeepONet (box [-2,2]^din: x -> x/2 exactly)
+    case["seq"] = din <= 2 and idx % 6 == 5
     if idx % 12 == 11:
         case["primary"] = "tensor3bad"
         case["bad_extra"] = rng.choice([1, npts, 2 * npts])
@@ -221,6 +225,8 @@ def gen_cases(ctx):
         cases.append(gen_lin(ctx, i))
     for i in range(ctx.scale(80, 800)):
         cases.append(gen_mesh(ctx, i))
+    # the input that showed the (repaired) defect of the pinned snapshot always runs first
+    cases.append(dict(kind="nondiv", d=2, neurons=3, B=4, N=6, copied=False, rank="r2", seed=1))
     for i in range(ctx.scale(40, 400)):
         cases.append(gen_nondiv(ctx, i))
     return cases
@@ -313,8 +319,13 @@ def build_net(case, copied):
     disc = e["Fixed"](tp.spaces.Points(t64(case["pts"]), Ti))
     trunk = tp.models.FCTrunkNet(T, hidden=tuple(case["trunk_hidden"]), trunk_input_copied=copied)
     branch = tp.models.FCBranchNet(fs, disc, hidden=tuple(case["branch_hidden"]))
-    net = tp.models.DeepONet(trunk, branch, U, case["neurons"]).double()
-    load_weights(net.trunk, case["trunk"])
+    if case.get("seq"):
+        box = tp.domains.Interval(T, -2, 2) if case["din"] == 1 else tp.domains.Parallelogram(T, [-2, -2], [2, -2], [-2, 2])
+        net = tp.models.DeepONet(tp.models.Sequential(tp.models.NormalizationLayer(box), trunk), branch, U, case["neurons"]).double()
+        load_weights(trunk, case["trunk"])
+    else:
+        net = tp.models.DeepONet(trunk, branch, U, case["neurons"]).double()
+        load_weights(net.trunk, case["trunk"])
     load_weights(net.branch, case["branch"])
     return net, fs
 
@@ -372,6 +383,13 @@ def trunk_tensor(case, xs=None, copies=None):
         return x.unsqueeze(0)
     c = case["B"] if copies is None else copies
     return x.unsqueeze(0).repeat(c, 1, 1)
+
+
+def model_x(case, xs):
+    """what the trunk network proper receives: the normalisation layer of a Sequential trunk maps [-2,2] to [-1,1]"""
+    if case.get("seq"):
+        return [[v / 2 for v in row] for row in xs]
+    return xs
 
 
 def ref_mlp(np, layers, x):
@@ -448,7 +466,7 @@ def run_net(case):
         res["problems"].append(f"feature shapes: branch {list(bfeat.shape)}, trunk {list(tfeat.shape)}; expected (B,d,K)=({B},{d},{K}) and (.,N,d,K)")
 
     # ---- O1: reference network from the parameters, features split row-major into (output_dim, neurons)
-    tref = ref_mlp(np, case["trunk"], case["x"])                       # (N, d*K)
+    tref = ref_mlp(np, case["trunk"], model_x(case, case["x"]))           # (N, d*K)
     bref = ref_mlp(np, case["branch"], [sum(r, []) for r in fn_values(case)])   # (B, d*K)
     want = np.einsum("ick,jck->ijc", bref.reshape(B, d, K), tref.reshape(N, d, K))
     res["ref"] = want.tolist()
@@ -527,6 +545,8 @@ def run_net(case):
         res["problems"].append(f"differentiating through the DeepONet raised {type(ex).__name__}: {str(ex)[:160]}")
 
     # ---- trunk.vjp: cotangent on the trunk features, gradients w.r.t. input and trunk parameters
+    if case.get("seq"):
+        return res
     try:
         x = trunk_tensor(case).clone().requires_grad_(True)
         tf = fast.trunk(tp.spaces.Points(x, T))
@@ -603,7 +623,7 @@ def judge_uniq(rep, case, res, reply):
 
 def net_lines(case, res):
     """driver requests of one net case: fwd fast, fwd plain, out (exact contraction), vjp"""
-    x = trunk_tensor(case).tolist()
+    x = trunk_tensor(case, xs=model_x(case, case["x"])).tolist()
     prim = case["primary"]
     if prim == "tensor3bad":
         fb = supply(case, prim, None).tolist()
@@ -627,12 +647,27 @@ def net_lines(case, res):
 
 def judge_net(rep, case, res, replies):
     rep.count("net:rank=" + case["rank"])
+    if case.get("seq"):
+        rep.count("net:sequential-trunk")
     rep.count("net:primary=" + case["primary"])
     rep.count(f"net:d={case['d']}")
     rep.count(f"net:B={case['B']}")
     for p in res["problems"]:
         rep.fail(p, case)
+    if res.get("o4"):
+        rep.hist["max reldiff fast-vs-plain (out, d1, d2, param grad)"] = [
+            max(a, b) for a, b in zip(rep.hist.get("max reldiff fast-vs-plain (out, d1, d2, param grad)", [0.0] * 4), res["o4"])]
     rfast, rplain, rout, rvjp = replies
+    if case["primary"] == "tensor3bad":
+        # a tensor with a wrong number of discretisation points has no specified result (the pinned code re-cuts the
+        # flat data or fails in the broadcast; raising a clear error would be just as good): informational only
+        for name, reply in (("fast", rfast), ("plain", rplain)):
+            impl = res[name]
+            mrej = reply.startswith("err") or reply.startswith("bad-op")
+            same = (mrej and isinstance(impl, str)) or (not mrej and not isinstance(impl, str)
+                                                         and maxdiff(impl, dec_all(reply, 3, unfbits)) <= TOL)
+            rep.count("malformed-branch-tensor:" + ("model=impl" if same else "model!=impl (not judged)"))
+        return
     for name, reply in (("fast", rfast), ("plain", rplain)):
         impl = res[name]
         if reply.startswith("err") or reply.startswith("bad-op"):
@@ -646,6 +681,7 @@ def judge_net(rep, case, res, replies):
             rep.disagree(f"DeepONet.forward ({name} trunk): implementation raised, model returns a value", case, impl, shape_of(model))
             continue
         dd = maxdiff(impl, model)
+        rep.hist["max reldiff model-vs-implementation forward"] = max(rep.hist.get("max reldiff model-vs-implementation forward", 0.0), dd)
         if dd > TOL:
             rep.disagree(f"DeepONet.forward ({name} trunk) vs TPV.DeepONet.forward in Float: max relative difference {dd:.3g}", case, impl, model)
     if rout != "skip" and "tfeat" in res:
@@ -670,6 +706,7 @@ def judge_net(rep, case, res, replies):
             else:
                 for k, (a, b) in enumerate(zip(impl, model)):
                     dd = maxdiff(a, b)
+                    rep.hist["max reldiff model-vs-implementation vjp"] = max(rep.hist.get("max reldiff model-vs-implementation vjp", 0.0), dd)
                     if dd > TOL:
                         what = "input" if k == 0 else f"parameter tensor {k - 1}"
                         rep.disagree(f"autograd through the fast trunk vs reverse sweep with the coded backward formulas, gradient of {what}: {dd:.3g}", case, a, b)
@@ -852,6 +889,17 @@ def run_nondiv(case):
         res["how"] = f"forward raised {type(ex).__name__}"
         return res
     res["impl"] = list(out.shape)
+    if list(out.shape) == [case["B"], case["N"], case["d"]]:
+        # a design that accepts such sizes (e.g. by rounding the neurons up) is fine as long as every
+        # (function, location) pair still has its own output: function 0 alone at location 0 alone
+        try:
+            x1 = x[..., :1, :]
+            o1 = net(tp.spaces.Points(x1, T), fb[:1]).as_tensor
+            if maxdiff(o1[0][0].tolist(), out[0][0].tolist()) <= 1e-10:
+                res["impl"] = "accepted-consistently"
+                return res
+        except Exception:
+            pass
     res["problems"].append(
         f"DeepONet(output dimension {case['d']}, output_neurons={case['neurons']}) evaluated on {case['B']} functions and "
         f"{case['N']} locations returns a tensor of shape {list(out.shape)}: the features of different functions/locations "
@@ -860,11 +908,13 @@ def run_nondiv(case):
 
 
 def judge_nondiv(rep, case, res, reply):
-    rep.count("nondiv:" + ("rejected" if res["impl"] == "err:neurons" else "accepted"))
+    rep.count("nondiv:" + ("rejected" if res["impl"] == "err:neurons" else str(res["impl"]) if isinstance(res["impl"], str) else "accepted-with-mixed-rows"))
     for p in res["problems"]:
         rep.fail(p, case)
-    if (res["impl"] == "err:neurons") != (reply == "err:neurons"):
-        rep.disagree("DeepONet with output_neurons not divisible by the output dimension: model " + reply, case, res["impl"], reply)
+    if reply != "err:neurons":
+        rep.disagree("finalize: the model accepts output_neurons not divisible by the output dimension", case, res["impl"], reply)
+    elif res["impl"] not in ("err:neurons", "accepted-consistently"):
+        rep.disagree("DeepONet with output_neurons not divisible by the output dimension: model rejects, implementation mixes rows", case, res["impl"], reply)
 
 
 # ------------------------------------------------------------------------------------------
